@@ -188,7 +188,8 @@ def gen_lines(rng, query_names):
             lines.append(('command', rng.choice(['.tables', '.describe postings', '.describe position', '.explain SELECT account, sum(number) GROUP BY 1',
                                                  '.help', '.help select', '.errors', '.history', '.reload', 'help']), None, None, '.'))
         else:
-            lines.append(('unknown', rng.choice(['.nosuch', '.select 1', '.balances', '.tabels', '.SET boxed 1', '.run2 x', '.print']), None, None, '.'))
+            lines.append(('unknown', rng.choice(['.nosuch', '.select 1', '.balances', '.tabels', '.SET boxed 1', '.run2 x', '.print', '..set boxed true', '...set nullvalue NULL',
+                                                 '..set format csv', '..tables', '..help', '.set.boxed true', '.settings']), None, None, '.'))
     return lines
 
 
